@@ -204,6 +204,12 @@ def coq_make(targets, timeout=2400):
     coq_ensure_makefile()
     cmd = ["make", "-j16"] + targets
     rc, out = sh(cmd, cwd=COQ, timeout=timeout)
+    if rc != 0 and "inconsistent assumptions" in out and not TAG:
+        # compiled files left over from an interrupted / concurrent build: rebuild what the targets need from clean
+        log("inconsistent .vo files: removing all compiled Rocq files and rebuilding the targets")
+        sh("find . -name '*.vo' -o -name '*.vok' -o -name '*.vos' -o -name '*.glob' | xargs rm -f", cwd=COQ)
+        shutil.rmtree(os.path.join(CACHE, "ocaml"), ignore_errors=True)
+        rc, out = sh(cmd, cwd=COQ, timeout=timeout)
     return rc, out
 
 
